@@ -581,8 +581,12 @@ fn monomorphize_contexts(
     // Within them, replace all types that have _Context with the said context.
     // Replace `Context context;` with specific context.
 
+    // Iterate the contexts in a fixed order, so that the output does not depend on the hash seed
+    // of the process.
+    let contexts = contexts.iter().sorted().collect::<Vec<_>>();
+
     let ctx_matches =
-        Itertools::intersperse(contexts.iter().map(String::as_str), "|").collect::<String>();
+        Itertools::intersperse(contexts.iter().map(|s| s.as_str()), "|").collect::<String>();
 
     let context_match = "Context context;";
 
@@ -601,7 +605,7 @@ fn monomorphize_contexts(
         let name = caps["name"].to_string();
         let name2 = caps["name2"].to_string();
 
-        for context in contexts {
+        for context in &contexts {
             // TODO: is this always correct?? Seems to be for CArc_c_void
             let context_ty = format!("_{}____", context);
 
@@ -737,7 +741,7 @@ typedef (struct )?{ty} (?P<new_ty>.+);
 
     // Move all mentioned context types above their first use to avoid incomplete types.
 
-    for context in contexts {
+    for context in &contexts {
         let ctx_def_regex = Regex::new(&format!(
             r"(/\\*[^*]*\\*+(?:[^/*][^*]*\\*+)*/
 )?typedef struct {context} \{{
